@@ -75,3 +75,6 @@ Definition hc_evaluate (n : Z) := track_new_score (hc_evaluate_body n).
 
 (* RandomSearchOptimizer.evaluate: tracked BaseOptimizer.evaluate *)
 Definition base_evaluate_tracked := track_new_score (fun t s => Ok (base_evaluate t s)).
+
+(* Spiral.evaluate: tracked `_new2current(); _evaluate_current2best()` *)
+Definition spiral_evaluate := track_new_score (fun t s => Ok (evaluate_current2best (new2current t))).
